@@ -1579,6 +1579,10 @@ func applyGC(cells []*btpb.Cell, rule *btapb.GcRule, now bigtable.Timestamp) []*
 		return cells[:si]
 	case *btapb.GcRule_MaxNumVersions:
 		n := int(rule.MaxNumVersions)
+		if n < 0 {
+			// An invalid (negative) version count condemns nothing; it must not crash the GC goroutine.
+			return cells
+		}
 		if len(cells) > n {
 			cells = cells[:n]
 		}
